@@ -77,7 +77,7 @@ def run(ctx):
         b = broken[0]
         ctx.report(f"broken:{b.what}", b.what, {"unchecked": b.what, "detail": b.detail[-3000:]}, found_input=False)
     ctx.sample({"triples": triples[:6]})
-    ctx.sample({"relocation_targets": ["nested", "unicode", "blank", "relative", "dotdot", "moved"]})
+    ctx.sample({"relocation_targets": ["nested", "unicode", "blank", "non_nfc", "odd_names", "relative", "dotdot", "moved"]})
     ctx.coverage.update({
         "obligations": proof["obligations"] if proof else 4, "discharged": proof["discharged"] if proof else 0,
         "theorems": proof["theorems"] if proof else [],
@@ -88,7 +88,7 @@ def run(ctx):
         "evaluations": len(res["describe"]) + sum(len(r.get("cases", [])) for r in res["relocate"]) + len(triples),
         "distinct_nontrivial": len(triples) + len(res["describe"]),
         "rule": "descriptions: unicode/control/long text, nested JSON custom metadata at dataset, attribute and shard level (big ints, extreme floats, null, lists, maps), all formats x compressions x 0..4 algorithms; "
-                "relocation: copy/move to nested, unicode, blank-containing, relative, '..'-relative locations, then open/check/iterate/continue writing, compared with the original; "
+                "relocation: copy/move to nested, unicode (also not NFC-normalised), blank-containing, oddly named, relative, '..'-relative locations, then open/check/iterate/continue writing, compared with the original; "
                 "versions: triples around the running version incl. multi-digit components",
         "descriptions": len(res["describe"]), "relocations": sum(len(r.get("cases", [])) for r in res["relocate"]), "version_triples": len(triples),
         "model_vs_impl_disagreements": dis, "traces_validated_against_impl": len(triples) - dis,
